@@ -183,6 +183,11 @@ fn gen_case(rng: &mut Rng) -> Case {
             lines.insert(at, format!("echo {} {}", k, long));
         }
     }
+    // a script that is a lone dash (the spelling many tools take for "read standard input"): to duck it is a script
+    // text or a line like any other
+    if rng.chance(1, 25) {
+        lines = vec![rng.pick(&["-", " - ", "--", "-e", "- x"]).to_string()];
+    }
     let fault = if matches!(form, Form::File | Form::LintShort | Form::LintLong | Form::FileWithExtraArg) && rng.chance(1, 8) {
         Some(match rng.below(3) {
             0 => FileFault::Missing,
